@@ -110,9 +110,13 @@ def cases(ctx):
             if rng.random() < 0.5:
                 pos, neg = rng.normal(1, 1, int(rng.integers(100, 140))), rng.normal(-1, 1, int(rng.integers(100, 140)))
                 kind = "gauss-100+"
+        bm = str(rng.choice(["quantile", "bc", "bca"]))
+        alpha = float(rng.choice([0.05, 0.1, 0.4]))
+        if bm == "quantile" and rng.random() < 0.4:  # several significance levels at once (documented for the quantile method): shape Y+A+(2,)
+            alpha = rng.uniform(0.01, 0.9, tuple(int(x) for x in rng.integers(1, 4, int(rng.integers(1, 3)))))
         yield {"pos": pos, "neg": neg, "ep": 0 if grouped else ep, "en": 0 if grouped else en, "sc": sc, "ec": ec, "kind": kind, "sampler": list(sampler),
                "metric": "group_fnr" if grouped else str(rng.choice(METRICS)), "grouped": grouped, "nb_samples": int(rng.choice([1, 3, 7, 20])),
-               "bm": str(rng.choice(["quantile", "bc", "bca"])), "alpha": float(rng.choice([0.05, 0.1, 0.4])), "thr": rng.normal(0, 1, int(rng.integers(1, 4))),
+               "bm": bm, "alpha": alpha, "thr": rng.normal(0, 1, int(rng.integers(1, 4))),
                "_seed": int(rng.integers(1 << 31))}
 
 
@@ -225,11 +229,13 @@ def execute(ctx, case):
         C(np.shape(call["theta"]) == reps.shape and np.array_equal(np.asarray(call["theta"]), reps, equal_nan=True), "replicates handed to the CI formula are not the metric on the samples drawn", "boot-ci-theta")
         C(np.array_equal(np.asarray(call["theta_hat"]), point, equal_nan=True), "point estimate handed to the CI formula is not the metric of the original object", "boot-ci-estimate",
           got=np.asarray(call["theta_hat"]), expected=point)
-        C(call["alpha"] == case["alpha"] and call["method"] == case["bm"], "alpha/method handed to the CI formula are not those requested", "boot-ci-params")
+        C(np.array_equal(np.asarray(call["alpha"]), np.asarray(case["alpha"])) and call["method"] == case["bm"], "alpha/method handed to the CI formula are not those requested", "boot-ci-params")
         C(np.array_equal(np.asarray(ci), np.asarray(call["result"]), equal_nan=True), "bootstrap_ci does not return the CI formula's result", "boot-ci-result")
-        C(np.shape(ci) == point.shape + (2,), "bootstrap_ci shape is not metric_shape+(2,)", "boot-ci-shape", got=np.shape(ci))
+        C(np.shape(ci) == point.shape + np.shape(case["alpha"]) + (2,), "bootstrap_ci shape is not metric_shape+alpha_shape+(2,)", "boot-ci-shape", got=np.shape(ci))
     if kind == "identity" and not np.isnan(point.astype(float)).any():
-        C(np.array_equal(np.asarray(ci, dtype=float), np.stack([point.astype(float)] * 2, axis=-1)), "identity sampler: limits do not collapse onto the point estimate", "boot-identity", ci=ci, point=point)
+        ashape = np.shape(case["alpha"])
+        collapsed = np.broadcast_to(point.astype(float).reshape(point.shape + (1,) * (len(ashape) + 1)), point.shape + ashape + (2,))
+        C(np.array_equal(np.asarray(ci, dtype=float), collapsed), "identity sampler: limits do not collapse onto the point estimate", "boot-identity", ci=ci, point=point)
     # ---- reproducibility ----------------------------------------------------------------------------------------
     if kind not in ("custom",):
         # "row j is the metric on the j-th sample produced by the configured sampler": the same seed fed to the sampler directly
